@@ -56,9 +56,10 @@ def plan(tier):
 def generate(rng, tier):
     lines = []
     for i in range(rng.randrange(1, 6)):
-        k = rng.choice(["str", "sum", "var", "macro", "loop", "nonl", "name", "argc"])
+        k = rng.choice(["str", "sum", "var", "macro", "loop", "nonl", "name", "argc", "sib", "err", "reader", "uni"])
         lines.append({"k": k, "a": rng.randrange(100), "b": rng.randrange(100)})
-    end = rng.choice(["none", "none", "exit", "exit0", "exitmsg", "raise", "reader", "compile", "none", "raise_os", "raise_os"])
+    end = rng.choice(["none", "none", "exit", "exit0", "exitmsg", "raise", "reader", "compile", "none", "raise_os", "raise_os",
+                      "exitnone", "raise_os"])
     args = []
     for _ in range(rng.choice([0, 1, 2, 3, 4])):
         args.append(rng.choice(OPTIONISH) if rng.random() < 0.5 else rng.choice(PLAIN))
@@ -67,12 +68,14 @@ def generate(rng, tier):
     rng.shuffle(order)
     return {"lines": lines, "end": end, "code": rng.choice([2, 3, 7, 42, 255]), "args": args, "pre": pre, "order": order,
             "file_as": rng.choice(["plain", "dot", "abs", "dashdash"]),
-            "spell": rng.choice(["plain", "plain", "cluster", "attached", "attached_eq"])}
+            "spell": rng.choice(["plain", "plain", "cluster", "attached", "attached_eq"]),
+            "os_kind": rng.randrange(9), "m_hyphen": rng.random() < 0.3}
 
 
 def render(desc):
     src = ["(import sys)"]
     out = []
+    errs = []
     src.append('(print "ARGV0" (get sys.argv 0))')
     src.append('(print "ARGS" (cut sys.argv 1 None))')
     src.append('(print "DWB" sys.dont_write_bytecode)')
@@ -102,6 +105,19 @@ def render(desc):
         elif k == "argc":
             src.append("(print (len sys.argv))")
             out.append(str(len(desc["args"]) + 1))
+        elif k == "sib":
+            # a sibling module of the working directory: function import and macro require must work in every mode
+            src.append(f"(import SIBLING [sf]) (require SIBLING [sm])\n(print (sm (sf {a})))")
+            out.append(str([a + 1, "sib"]))
+        elif k == "err":
+            src.append(f'(print "e{a}" :file sys.stderr)')
+            errs.append(f"e{a}")
+        elif k == "reader":
+            src.append(f"(defreader r{i} '(+ {a} {b}))\n(print #r{i})")
+            out.append(str(a + b))
+        elif k == "uni":
+            src.append(f'(setv \u00e9t\u00e9{i} "\u2603{a}") (print \u00e9t\u00e9{i} (len \u00e9t\u00e9{i}))')
+            out.append(f"\u2603{a} {len(str(a)) + 1}")
     status = 0
     early = False  # failure before any output (whole program is read/compiled first)
     e = desc["end"]
@@ -118,20 +134,28 @@ def render(desc):
         status = 1
     elif e == "raise_os":
         # exceptions that the command line itself also knows how to raise / handle
-        src.append(["(open \"/nonexistent-dir/zz\")", "(raise (FileNotFoundError 2 \"nope\" \"other.hy\"))", "(raise (SystemError \"s\"))",
-                    "(raise (KeyboardInterrupt))", "(raise (ImportError \"no mod\"))", "(import no-such-module-zz)"][desc["code"] % 6])
+        kinds = [("(open \"/nonexistent-dir/zz\")", "FileNotFoundError"), ("(raise (FileNotFoundError 2 \"nope\" \"other.hy\"))", "FileNotFoundError"),
+                 ("(raise (SystemError \"s\"))", "SystemError"), ("(raise (KeyboardInterrupt))", "KeyboardInterrupt"),
+                 ("(raise (ImportError \"no mod\"))", "ImportError"), ("(import no-such-module-zz)", "ModuleNotFoundError"),
+                 ("(raise (FileNotFoundError \"just a message\"))", "FileNotFoundError"), ("(raise (FileNotFoundError 2 \"nope\"))", "FileNotFoundError"),
+                 ("(raise (IsADirectoryError 21 \"dir\" \"x\"))", "IsADirectoryError")]
+        form, exc_name = kinds[desc.get("os_kind", desc["code"]) % len(kinds)]
+        src.append(form)
         status = 1
+    elif e == "exitnone":
+        src.append("(sys.exit None)")
     elif e == "reader":
         src.append('(print "unclosed"')
         status, early = 1, True
     elif e == "compile":
         src.append("(if)")
         status, early = 1, True
-    if e in ("exit", "exit0", "exitmsg", "raise", "none", "raise_os"):
+    exc_name = locals().get("exc_name") or ("ValueError" if e == "raise" else None)
+    if e in ("exit", "exit0", "exitmsg", "raise", "none", "raise_os", "exitnone"):
         src.append('(print "unreachable")' if e != "none" else '(print "done")')
         if e == "none":
             out.append("done")
-    return "\n".join(src) + "\n", out, status, early
+    return "\n".join(src) + "\n", out, status, early, errs, exc_name
 
 
 def execute(desc):
@@ -142,11 +166,15 @@ def execute(desc):
     root = os.path.join(base, "cli-%d-%d" % (os.getpid(), _S["n"]))
     shutil.rmtree(root, ignore_errors=True)
     os.makedirs(root)
-    modname = "p%dx%d" % (os.getpid() % 100000, _S["n"])
+    modname = "p%d_x%d" % (os.getpid() % 100000, _S["n"])
     path = os.path.join(root, modname + ".hy")
-    text, exp_out, exp_status, early = render(desc)
-    with open(path, "w") as f:
+    text, exp_out, exp_status, early, exp_errs, exc_name = render(desc)
+    sib = "sib_" + modname
+    text = text.replace("SIBLING", sib)
+    with open(path, "w", encoding="utf-8") as f:
         f.write(text)
+    with open(os.path.join(root, sib + ".hy"), "w") as f:
+        f.write('(defn sf [x] (+ x 1))\n(defmacro sm [x] `[~x "sib"])\n')
     pyc = importlib.util.cache_from_source(path)
     viols, events = [], []
     faults = {"abnormal_program_end": int(desc["end"] not in ("none",)), "option_like_argument": sum(a.startswith("-") for a in desc["args"])}
@@ -179,15 +207,17 @@ def execute(desc):
                 a0 = "-"
                 stdin = text
             else:
+                # the documented module argument is a Hy name: hyphens are mangled
+                mname = modname.replace("_", "-") if desc.get("m_hyphen") else modname
                 if sp == "cluster":
-                    argv = ["hy"] + pre + ["-Bm", modname] + args
+                    argv = ["hy"] + pre + ["-Bm", mname] + args
                     dwb = True
                 elif sp == "attached":
-                    argv = ["hy"] + pre + ["-m" + modname] + args
+                    argv = ["hy"] + pre + ["-m" + mname] + args
                 elif sp == "attached_eq":
-                    argv = ["hy"] + pre + ["-m=" + modname] + args
+                    argv = ["hy"] + pre + ["-m=" + mname] + args
                 else:
-                    argv = ["hy"] + pre + ["-m", modname] + args
+                    argv = ["hy"] + pre + ["-m", mname] + args
                 a0 = path
             status, out, err = cli.run_hy(argv, stdin, cwd=root, timeout=90)
             if status is None:
@@ -231,6 +261,14 @@ def execute(desc):
                                   "detail": {"mode": mode, "pre": pre, "dont_write_bytecode": head.get("DWB")}})
             if exp_status != 0 and desc["end"] != "exit" and not err.strip():
                 viols.append({"clause": "failure_not_reported", "sig": sig, "detail": {"mode": mode, "end": desc["end"]}})
+            if not early:
+                # what the program itself wrote to stderr, and the name of the exception that ended it
+                err_lines = err.splitlines()
+                if [l for l in err_lines if l in exp_errs] != exp_errs:
+                    viols.append({"clause": "mode_stderr", "sig": sig, "detail": {"mode": mode, "expected_lines": exp_errs, "stderr": err[-400:]}})
+                if exc_name and not any(l.startswith(exc_name) or ("." + exc_name) in l.split(":")[0] for l in err_lines):
+                    viols.append({"clause": "failure_not_reported", "sig": sig + ":exception_name",
+                                  "detail": {"mode": mode, "expected_exception": exc_name, "stderr": err[-500:]}})
             events.append([mode, tag, status, len(body), head.get("ARGV0", "")[-20:] if mode != "m" and mode != "file" else ""])
 
         for mode in desc["order"]:
